@@ -3,6 +3,7 @@
   manager ("by loading or copying").
 -/
 import DDProofs.MgrCopyProofs
+import DDProofs.UsedObs
 namespace DD
 open Std
 
@@ -31,5 +32,42 @@ theorem C02_manager_copy_every_history (ops : List UOp) (hg : OpsGuarded ops St.
 example : ∃ b, mgrCopy ({} : Mgr) = .ok b ∧ b.tbl = ({} : Mgr).tbl :=
   let ⟨b, he, ht, _⟩ := C02_manager_copy {} St.init.ext (reachable_inv [] (by trivial))
   ⟨b, he, ht⟩
+
+/-! ### non-vacuity on a USED manager (`usedM`: levels c, a, d, b — not the order of the names —,
+thirteen nodes, 4 = `a ∧ b` held once, 13 = `ite(c ≡ d, a ∧ b, ¬b)` held twice, garbage, a warm
+computed table) -/
+
+/-- the theorem on the used state and on the history that reaches it -/
+example : (∃ b, mgrCopy usedM = .ok b ∧ b.tbl = usedM.tbl ∧ b.cache.isEmpty = true ∧
+      GoodState b usedExt ∧ (∀ u a, den b.tbl u a = den usedM.tbl u a) ∧
+      (∀ u v, b.tbl.Mem u → b.tbl.Mem v → (u = v ↔ ∀ a, den b.tbl u a = den b.tbl v a))) ∧
+    (∃ b, mgrCopy ⟪usedHistory⟫.m = .ok b ∧ GoodState b ⟪usedHistory⟫.ext ∧
+      b.tbl = ⟪usedHistory⟫.m.tbl) :=
+  ⟨C02_manager_copy usedM usedExt usedM_good,
+   C02_manager_copy_every_history usedHistory usedHistory_guarded⟩
+
+/-- evaluated: the copy has the thirteen nodes under the same numbers, the same reference counts
+(4 held once, 13 twice), the same tables for `f`, `¬(a ∧ b)` and the garbage node — and an EMPTY
+computed table although the original's is warm; then the two managers diverge independently:
+`c ∧ b` built in the copy gets number 15 there, the original still has thirteen nodes -/
+example : (match mgrCopy usedM with
+    | .ok b => some (b.tbl.succ.keys, b.tbl.vars.toList)
+    | .error _ => none) =
+    some ([2, 3, 4, 5, 6, 7, 8, 9, 10, 11, 12, 13, 14],
+      [("a", 1), ("b", 3), ("c", 0), ("d", 2)]) := by decide +kernel
+
+example : (match mgrCopy usedM with
+    | .ok b => some (b.ref[4]?, b.ref[13]?, b.ref[14]?, b.cache.isEmpty, usedM.cache.isEmpty)
+    | .error _ => none) = some (some 1, some 2, some 0, true, false) := by decide +kernel
+
+example : (match mgrCopy usedM with
+    | .ok b => some (tt4 b.tbl 13 == tt4 usedM.tbl 13, tt4 b.tbl (-4) == tt4 usedM.tbl (-4),
+        tt4 b.tbl 14 == tt4 usedM.tbl 14)
+    | .error _ => none) = some (true, true, true) := by decide +kernel
+
+example : (match mgrCopy usedM with
+    | .ok b => some ((apply "and" 5 (some 3) none b).1.toOption,
+        (apply "and" 5 (some 3) none b).2.tbl.succ.keys.length, usedM.tbl.succ.keys.length)
+    | .error _ => none) = some (some 15, 14, 13) := by decide +kernel
 
 end DD
